@@ -458,8 +458,13 @@ def array_stream(ctx, deep=False, model=True):
     for mode, d, s_in, s_out, offs in plans:
         case = build_case(rng, mode, d, s_in, s_out, offs)
         arr = case_data(case)
+        arr0 = arr.copy()
         status, res = call_resize(case, arr)
-        desc = describe(case, arr)
+        desc = describe(case, arr0)
+        if ilist(arr) != ilist(arr0):
+            ctx.violation(key_of(case) + ' input-modified',
+                          'the input array was modified by the call', desc)
+            arr = arr0.copy()
         if not valid_offsets(case):
             ctx.case(None)
             ctx.err('offset-out-of-range:' + status.split(':')[0] +
@@ -483,8 +488,18 @@ def array_stream(ctx, deep=False, model=True):
             ctx.err(status if status.count(':') == 1 else 'err:other')
         if model:
             ls = model_lines(case, arr)
-            batch.append((case, desc, status, res, len(ls)))
-            lines.extend(ls)
+            groups = [ls]
+            if len(s_in) >= 2 and status == 'ok':
+                # the composition the n-d transposition theorem is stated for (last axis
+                # first), and for small cases the model's own `resizeND` without tabulation
+                groups.append([l + ' order=rev' for l in ls])
+                ctx.hit('nd/reversed-axis-order')
+                if int(np.prod(s_in)) * int(np.prod(s_out)) <= 400 and d == 'forward':
+                    groups.append([l.replace('resize ', 'resize-direct ', 1) for l in ls])
+                    ctx.hit('nd/resizeND-direct')
+            for g in groups:
+                batch.append((case, desc, status, res, len(g)))
+                lines.extend(g)
     if model:
         outs = core.run_driver('C16', lines)
         pos = 0
@@ -773,7 +788,7 @@ def operator_stream(ctx, deep=False, model=True):
         for tag, text in problems:
             if tag not in seen:
                 seen.add(tag)
-                ctx.violation(op_key(case, tag), text[:600], case)
+                ctx.violation(op_key(case, tag), text[:600], dict(case, tag=tag))
         ctx.case(('operator', case['variant'], case['mode'],
                   tuple((a['m'] > a['n']) - (a['m'] < a['n']) for a in case['axes']),
                   any(any(a['bdry']) for a in case['axes'])),
@@ -808,6 +823,18 @@ def run(ctx):
     nppad_stream(ctx)
     array_stream(ctx)
     operator_stream(ctx)
+    # coverage of the model's branches by this run (a silent loss of coverage must be visible)
+    expected = ['{}/{}/{}'.format(m, d, c) for m in MODES for d in DIRS
+                for c in ('grow', 'shrink', 'same')]
+    expected += ['reference/' + m for m in MODES] + ['discr-model']
+    expected_err = ['err:padconst-adjoint', 'err:order0-empty', 'err:order1-short',
+                    'err:periodic-too-long', 'err:symmetric-too-long']
+    unhit = [b for b in expected if not ctx.branches.get(b)] + \
+        [e for e in expected_err if not ctx.errors.get(e)]
+    ctx.extra['unhit_model_branches'] = unhit
+    if unhit and not ctx.quick:
+        ctx.disagree({'kind': 'coverage'}, 'model branches never exercised', unhit,
+                     stream='coverage')
 
 
 def search(ctx, broken):
@@ -825,14 +852,18 @@ def search(ctx, broken):
 def replay(ctx, case):
     if case.get('kind') == 'array':
         arr = case_data(case)
+        arr0 = arr.copy()
         status, res = call_resize(case, arr)
         if not valid_offsets(case):
             return None
+        if ilist(arr) != ilist(arr0):
+            return 'the input array was modified by the call'
         problems = oracle_array(case, arr, status, res, True)
         return '; '.join(problems) if problems else None
     if case.get('kind') == 'operator':
         problems, _, _ = run_op_case(ctx, case)
-        return '; '.join(t for _, t in problems) if problems else None
+        problems = [t for tag, t in problems if case.get('tag') in (None, tag)]
+        return '; '.join(problems) if problems else None
     if case.get('kind') == 'malformed':
         sub = core.Ctx(ctx.pid, ctx.tier, ctx.seed)
         malformed_stream(sub)
